@@ -456,10 +456,18 @@ impl<'input> Parser<'input> {
     /// This allows for us to not have to always close nodes when we are parsing
     /// tokens.
     pub(crate) fn start_node(&mut self, kind: SyntaxKind) -> NodeGuard {
-        self.push_ignored();
+        // Tokens that are still pending belong to the parent node. When this node is
+        // the root of the tree there is no parent: they are attached inside it instead.
+        let at_root = self.builder.borrow().is_at_root();
+        if !at_root {
+            self.push_ignored();
+        }
 
         self.builder.borrow_mut().start_node(kind);
         let guard = NodeGuard::new(self.builder.clone());
+        if at_root {
+            self.push_ignored();
+        }
         self.skip_ignored();
 
         guard
@@ -469,8 +477,11 @@ impl<'input> Parser<'input> {
     /// other node.
     pub(crate) fn checkpoint_node(&mut self) -> Checkpoint {
         // We may start a new node here in the future, so let's process
-        // our preceding whitespace first
-        self.push_ignored();
+        // our preceding whitespace first. (Not before the root node: there the
+        // pending tokens are attached inside the node that gets started.)
+        if !self.builder.borrow().is_at_root() {
+            self.push_ignored();
+        }
 
         let checkpoint = self.builder.borrow().checkpoint();
         Checkpoint::new(self.builder.clone(), checkpoint)
